@@ -370,4 +370,73 @@ theorem provide_consumer_model_eq_spec (env : Env) (i : Nat) (key ik : Str) (kwP
   rw [← hsid]
   exact ⟨s', hs', hst⟩
 
+/-! ### siblings under one provider (the shape of the repaired defect 2193c9f) -/
+
+/-- `{% provide %}` around any body that hands the provider's registries back as it found them -/
+theorem provide_wrap (env : Env) (n : Nat) (key ik : Str) (kwP : List (Str × Expr)) (body : List Node) (ctx ctx1 : Ctx)
+    (w W W' : World) (out : List Tok)
+    (hkey : isIdentifier key = true) (hik : ik = injectPrefix ++ key)
+    (hctx1 : ctx1 = ctx ++ [[(ik, .provRef w.nextId)]])
+    (hsteps : ¬ w.steps ≥ env.maxSteps)
+    (hW : W = holdSelfW w.nextId ({ w with steps := w.steps + 1, nextId := w.nextId + 1, provideCache := alSet w.nextId (evalKwargs ctx kwP) w.provideCache } : World))
+    (hbody : (renderNodes env n body ctx1).run.run W = (.ok out, W'))
+    (h1 : W'.provideCache = [(w.nextId, evalKwargs ctx kwP)]) (h2 : W'.provideRefs = [(w.nextId, [w.nextId])]) :
+    (renderNode env (n + 1) (.provide key kwP body) ctx).run.run w =
+      (.ok out, { W' with provideCache := [], provideRefs := [] }) := by
+  unfold renderNode
+  simp only [run_bind, run_get, hsteps, ↓reduceIte, run_set, hkey, Bool.not_true, Bool.false_eq_true, run_genId, run_modify,
+    run_tryCatch, ← hik, ← hctx1, ← hW, hbody, run_pure]
+  simp only [cacheCleanup, run_liftW, cacheCleanupW, h1, h2, alGet, ↓reduceIte, alSet, List.filter_cons, ne_eq,
+    not_true_eq_false, decide_false, Bool.false_eq_true, List.filter_nil, List.isEmpty_nil, popProvideCacheW, alHas,
+    Option.isSome_some, alDel]
+
+/-- **Two consumers side by side under one provider**: when the first has finished — and unregistered its reference —
+the provided data is still there for the second, and after both the registries are what they were. -/
+theorem two_consumers_under_provider (env : Env) (i : Nat) (name1 name2 : Str) (kw1 kw2 : List (Str × Expr))
+    (only1 dyn1 only2 dyn2 : Bool) (ctx ctx1' ctx2' : Ctx) (w : World) (d1 d2 : CompDef) (pid : Nat) (payload : Layer)
+    (toks1 toks2 : List Tok) (st1 st2 : Nat)
+    (hctx1' : ctx1' = if only1 || env.isolated then isolatedCopy ctx else ctx)
+    (hctx2' : ctx2' = if only2 || env.isolated then isolatedCopy ctx else ctx)
+    (hr : env.raiseAt = none)
+    (hd1 : findDef env name1 = some d1) (hdyn1 : isDynName name1 = false) (hp1 : plainL d1.template = true)
+    (hd2 : findDef env name2 = some d2) (hdyn2 : isDynName name2 = false) (hp2 : plainL d2.template = true)
+    (hsteps1 : ¬ w.steps ≥ env.maxSteps) (hsteps2 : ¬ st1 ≥ env.maxSteps) (hgcd : w.gcds + 1 < env.maxInst)
+    (hext : isExtracting ctx = false)
+    (hpar1 : ∀ p, ctxGet ctx1' compKey ≠ some (.compRef p)) (hpar2 : ∀ p, ctxGet ctx2' compKey ≠ some (.compRef p))
+    (hpc : w.provideCache = [(pid, payload)]) (hpr : w.provideRefs = [(pid, [pid])])
+    (hne1 : pid ≠ w.nextId) (hne2 : pid ≠ w.nextId + 1)
+    (hids1 : provIdsOf ctx1' = [pid]) (hinj1 : injectsFrom ctx1' pid d1.data)
+    (hids2 : provIdsOf ctx2' = [pid]) (hinj2 : injectsFrom ctx2' pid d2.data)
+    (hf1 : ∀ k, w.nextId ≤ k → alGet k w.ctxCache = none ∧ alGet k w.rendererCache = none ∧ alGet k w.childAttrs = none ∧
+      w.allRefIds.contains k = false)
+    (hc1 : ctxFree (leafCtxI ctx1' w.nextId (evalKwargs ctx kw1) payload d1) = true)
+    (hok1 : pNodes env.maxSteps (i + 2) d1.template (leafCtxI ctx1' w.nextId (evalKwargs ctx kw1) payload d1) (w.steps + 1) = (.ok toks1, st1))
+    (hc2 : ctxFree (leafCtxI ctx2' (w.nextId + 1) (evalKwargs ctx kw2) payload d2) = true)
+    (hok2 : pNodes env.maxSteps (i + 1) d2.template (leafCtxI ctx2' (w.nextId + 1) (evalKwargs ctx kw2) payload d2) (st1 + 1) = (.ok toks2, st2)) :
+    (renderNodes env (i + 8) [.comp name1 kw1 only1 dyn1 [], .comp name2 kw2 only2 dyn2 []] ctx).run.run w =
+      (.ok ((.marker name1 w.nextId :: addRootAttrs [idAttr w.nextId] toks1) ++
+            ((.marker name2 (w.nextId + 1) :: addRootAttrs [idAttr (w.nextId + 1)] toks2) ++ [])),
+        { w with nextId := w.nextId + 2, steps := st2, gcds := w.gcds + 2,
+                 events := w.events ++ [.gcd w.nextId] ++ injEvents w.nextId d1.data ++ [.before w.nextId, .after w.nextId] ++
+                   [.gcd (w.nextId + 1)] ++ injEvents (w.nextId + 1) d2.data ++ [.before (w.nextId + 1), .after (w.nextId + 1)] }) := by
+  obtain ⟨a1, a2, a3, a4⟩ := hf1 w.nextId (Nat.le_refl _)
+  obtain ⟨b1, b2, b3, b4⟩ := hf1 (w.nextId + 1) (Nat.le_succ _)
+  have hfirst := consumer_under_provider env (i + 1) name1 kw1 only1 dyn1 ctx ctx1' w d1 pid payload toks1 st1 hctx1' hr hd1 hdyn1 hp1
+    hsteps1 (by omega) hext hpar1 hpc hpr hne1 hids1 hinj1 a1 a2 a3 a4 hc1 hok1
+  have hW1 : ∃ W1 : World, W1 = ({ w with nextId := w.nextId + 1, steps := st1, gcds := w.gcds + 1, events := w.events ++ [.gcd w.nextId] ++ injEvents w.nextId d1.data ++ [.before w.nextId, .after w.nextId] } : World) := ⟨_, rfl⟩
+  obtain ⟨W1, hW1⟩ := hW1
+  rw [← hW1] at hfirst
+  have e1 : W1.nextId = w.nextId + 1 := by rw [hW1]
+  have e2 : W1.steps = st1 := by rw [hW1]
+  have e3 : W1.gcds = w.gcds + 1 := by rw [hW1]
+  have e4 : W1.provideCache = [(pid, payload)] ∧ W1.provideRefs = [(pid, [pid])] := by rw [hW1]; exact ⟨hpc, hpr⟩
+  have e5 : W1.ctxCache = w.ctxCache ∧ W1.rendererCache = w.rendererCache ∧ W1.childAttrs = w.childAttrs ∧ W1.allRefIds = w.allRefIds := by
+    rw [hW1]; exact ⟨rfl, rfl, rfl, rfl⟩
+  have hsecond := consumer_under_provider env i name2 kw2 only2 dyn2 ctx ctx2' W1 d2 pid payload toks2 st2 hctx2' hr hd2 hdyn2 hp2
+    (by rw [e2]; exact hsteps2) (by rw [e3]; exact hgcd) hext hpar2 e4.1 e4.2 (by rw [e1]; exact hne2) hids2 hinj2
+    (by rw [e1, e5.1]; exact b1) (by rw [e1, e5.2.1]; exact b2) (by rw [e1, e5.2.2.1]; exact b3) (by rw [e1, e5.2.2.2]; exact b4)
+    (by rw [e1]; exact hc2) (by rw [e1, e2]; exact hok2)
+  simp only [renderNodes, run_bind, hfirst, hsecond, run_pure]
+  rw [hW1]
+
 end Djc.Proofs.Inject
